@@ -1,7 +1,10 @@
 import SaModel.Read.Access
 /-
-C13 — Deserializer random access, iteration and bulk reads agree.
+C13 — Deserializer random access, iteration and bulk reads agree: the INDICES.
 Property theorems only.  Model: SaModel/Read/Access.lean (deserializer.rs).
+The values (what reading the index gives, for every batch, history and target), the bulk read as the list of the item
+reads, `get` = iteration, and the statements without fuel (`drain_fuel_irrelevant`: the fuel of `iter_items` /
+`size_hint_truthful` hides nothing) are in Props/C13Val.lean.
 -/
 namespace SaModel.Props.C13
 open SaModel SaModel.Access
